@@ -229,15 +229,16 @@ PROPS = {
                 level_text='C10_protected / C10_history: every removal call is backed by a node that is not protected (non-empty annotation, no force taint), for all ages and emptiness, along all histories; '
                            'classification and capacity ignore annotations; candidates are computed node by node (no hold-back). Tie: hist correspondence on removal calls + monitor.',
                 level_note=LEVEL_NOTE),
-    'C11': dict(level='proof', module='EscProofs.P.C11',
+    'C11': dict(level='proof', module='EscProofs.P.C11Iso',
                 # the last stream of each tier: the credentials refresh fails and the provider is rebuilt under a dry group (5 s of real sleep each)
                 streams=dict(quick=[('scenario', ['-dir', '@ROOT/corpus/C11']), ('hist', ['-n', 400, '-scans', 10, '-focus', 'dry']), ('hist', ['-n', 16, '-scans', 6, '-focus', 'dry', '-slow'])],
                              thorough=[('scenario', ['-dir', '@ROOT/corpus/C11']), ('hist', ['-n', 20000, '-scans', 12, '-focus', 'dry']), ('hist', ['-n', 160, '-scans', 6, '-focus', 'dry', '-slow'])],
                              search=[('hist', ['-n', 1500, '-scans', 12, '-focus', 'dry']), ('hist', ['-n', 32, '-scans', 6, '-focus', 'dry', '-slow'])]),
                 aspects=['hist:drywrites', 'hist:journal', 'hist:reccount'], monitors=['C11'],
-                theorems=['Esc.P.C11_scan', 'Esc.P.C11_history', 'Esc.P.C11_reading'],
+                theorems=['Esc.P.C11_scan', 'Esc.P.C11_history', 'Esc.P.C11_reading', 'Esc.P.C11_other_groups_dry_mode_irrelevant'],
                 technique='Lean 4 theorem (journal anatomy: with either dry switch every entry is a read) + differential correspondence and runtime monitor',
                 level_text='C11_scan / C11_history: with the global flag or the group option set, the group scan journal contains no write, for every state/view/environment and every history. '
+                           'C11_other_groups_dry_mode_irrelevant (= C12_frame read for dry_mode): what a group does for a given environment is a function of the global flag and its own configuration, state, cloud group and view; no other group\'s dry_mode occurs in it. '
                            'Scope: scans (RunOnce); the one-off ASG tag write at provider construction is outside. Isolation of other groups is C12. Tie: hist (dry-focused) on writes of dry groups + monitor.',
                 level_note=LEVEL_NOTE),
     'C16': dict(level='proof', module='EscProofs.P.C16',
